@@ -435,6 +435,15 @@ impl State {
         }
     }
 
+    /* adds a disjunct met outside get_next_check (through a name, or
+     * nested in another disjunct) as a set of its own, to be expanded by
+     * get_next_check */
+    fn push_disjunct(&mut self, chk: PendingCheck) {
+        let mut set = VecDeque::new();
+        set.push_back(chk);
+        self.todo.push_front((set, 0, 0))
+    }
+
     /* adds a check to the examined set */
     fn examine(&mut self, o: &Rc<LocatedVal<PDFObjT>>, c: &Rc<TypeCheck>) {
         let chk = (Rc::clone(o), Rc::clone(c));
@@ -788,6 +797,14 @@ pub fn check_type(
         result = None;
 
         // println!("\n\n {:?}\n\n against {:?}\n\n", o.val(), c);
+
+        // A disjunct reaches this point when it was given by name or is
+        // an alternative of another disjunct (only the top-level check is
+        // normalized): its alternatives are tried by get_next_check.
+        if let PDFType::Disjunct(_) = c.typ() {
+            state.push_disjunct((Rc::clone(&o), Rc::new(TypeCheck::Rep(Rc::clone(&c)))));
+            continue
+        }
 
         match (o.val(), c.typ(), c.indirect()) {
             // Indirects are best handled first.
